@@ -166,6 +166,16 @@ theorem C13_named_accessors_extracted :
      Generated.sigs.any (fun s => s.obligated && s.callbacks.any (fun cb => !cb.argRegions.isEmpty))) = true := by
   decide
 
+/-- **Unsizing a borrow keeps its region** (feature `unsize`): the safe `CoerceUnsize::unsize` returns whatever
+`CoerciblePtr::replace_ptr` returns; for `ArcBorrow<'lt, T>` that output must stay tied to `'lt` (a Self lifetime), so
+the coerced `ArcBorrow<'lt, dyn Trait>` / `ArcBorrow<'lt, [T]>` cannot outlive the Arc it was borrowed from.  The impl
+is among the extracted signatures, is obligated although the trait method is `unsafe`, and is bounded. -/
+theorem C13_unsize_keeps_region :
+    Generated.sigs.any (fun s => s.key == "ArcBorrow::replace_ptr" && s.trait_ == "CoerciblePtr" && s.obligated &&
+      !s.outRegions.isEmpty && regionBounded s) = true ∧
+    (Generated.sigs.filter (fun s => s.trait_ == "CoerciblePtr")).all (fun s => s.obligated && regionBounded s) = true := by
+  decide
+
 /-! ## non-vacuity: the checks accept and reject -/
 
 -- witnesses of each class at the generated tables
